@@ -202,3 +202,66 @@ func c14Consume(c *core.Ctx) {
 		c.Note("array index expressions with a narrow-typed index larger than the array: %d (%d guarded)", n, nOK)
 	})
 }
+
+// c14Narrow: clause C14.10.
+func c14Narrow(c *core.Ctx) {
+	c.Clause("C14.10", "marshalers do not truncate: in the text / JSON / RLP encoders of the repository's own types (MarshalText, MarshalJSON, EncodeRLP) no integer is converted to a narrower integer type on its way into the output — a value that does not fit is written modulo 2^n and decodes to a different value")
+	c.Run("no-narrowing-in-encoders", func() {
+		width := func(t types.Type) (int, bool) {
+			b, ok := t.Underlying().(*types.Basic)
+			if !ok || b.Info()&types.IsInteger == 0 {
+				return 0, false
+			}
+			switch b.Kind() {
+			case types.Int8, types.Uint8:
+				return 8, true
+			case types.Int16, types.Uint16:
+				return 16, true
+			case types.Int32, types.Uint32:
+				return 32, true
+			case types.Int, types.Uint, types.Int64, types.Uint64, types.Uintptr:
+				return 64, true
+			}
+			return 0, false
+		}
+		nEnc, nConv := 0, 0
+		seq := map[string]int{}
+		for _, fn := range c.SrcFuncs {
+			if isTestHelper(c, fn) || fn.Signature.Recv() == nil {
+				continue
+			}
+			switch fn.Name() {
+			case "MarshalText", "MarshalJSON", "EncodeRLP":
+			default:
+				continue
+			}
+			nEnc++
+			for _, b := range fn.Blocks {
+				for _, in := range b.Instrs {
+					cv, ok := in.(*ssa.Convert)
+					if !ok {
+						continue
+					}
+					if _, isK := cv.X.(*ssa.Const); isK {
+						continue
+					}
+					from, ok1 := width(cv.X.Type())
+					to, ok2 := width(cv.Type())
+					if !ok1 || !ok2 {
+						continue
+					}
+					nConv++
+					if to >= from {
+						continue
+					}
+					name := shortFn(fn)
+					seq[name]++
+					c.Check("narrowing@"+name+seqSuffix(seq[name]), "value-range", false, cv.Pos(), "%s converts a %s to the narrower %s while encoding", name, cv.X.Type(), cv.Type())
+				}
+			}
+		}
+		c.Floor("encoders-scanned", nEnc, 30)
+		c.Floor("integer-conversions-in-encoders", nConv, 1)
+	})
+}
+
